@@ -430,3 +430,14 @@ Lemma set_path_noauth_refuted :
   wf_b sp_w1 = true /\ has_authority_b sp_w1 = false
   /\ exists u', set_path true sp_w1 [47; 47; 120] = Some u' /\ ser u' = [97; 58; 47; 47; 120] /\ wf_b u' = false.
 Proof. split; [vm_compute; reflexivity|]. split; [vm_compute; reflexivity|]. eexists. split; [vm_compute; reflexivity|]. split; vm_compute; reflexivity. Qed.
+
+(* F-C02-3: set_path("?") on the opaque-path URL "a:b" writes the '?' unencoded: "a:?" with the '?'
+   inside the path - outside wf_b (and outside has_authority_b u = true) *)
+Definition sp_w2 : url := mkUrl [97; 58; 98] 1 2 2 2 HI_None None 2 None None.
+Lemma set_path_opaque_refuted :
+  wf_b sp_w2 = true /\ has_authority_b sp_w2 = false
+  /\ exists u', set_path true sp_w2 [63] = Some u' /\ ser u' = [97; 58; 63] /\ query_start u' = None /\ wf_b u' = false.
+Proof.
+  split; [vm_compute; reflexivity|]. split; [vm_compute; reflexivity|]. eexists. split; [vm_compute; reflexivity|].
+  split; [|split]; vm_compute; reflexivity.
+Qed.
